@@ -197,7 +197,7 @@ func BaseClientConfig(s *Server) *v1.ClientCommonConfig {
 func StartClient(common *v1.ClientCommonConfig, pxys []v1.ProxyConfigurer, vis []v1.VisitorConfigurer) (*Client, error) {
 	common.Complete()
 	for _, p := range pxys {
-		p.Complete("")
+		p.Complete(common.User) // as config.LoadClientConfig does: names get the "<user>." prefix
 	}
 	for _, v := range vis {
 		v.Complete(common)
